@@ -111,16 +111,25 @@ void FeatureChecker::visitAssignment(expression_t& ass)
 {
     switch (ass.get_kind()) {
     case Constants::ASSIGN:
+    case Constants::ASS_PLUS:
+    case Constants::ASS_MINUS:
+    case Constants::ASS_DIV:
+    case Constants::ASS_MOD:
+    case Constants::ASS_MULT:
+    case Constants::ASS_AND:
+    case Constants::ASS_OR:
+    case Constants::ASS_XOR:
+    case Constants::ASS_LSHIFT:
+    case Constants::ASS_RSHIFT:
         // only an assignment whose target is a hybrid clock whichever way it is evaluated is abstracted away
         if (ass.uses_fp() && !is_hybrid_target(ass.get(0)))
             supported_methods.symbolic = false;
         break;
-    case Constants::COMMA:
-        for (size_t i = 0; i < ass.get_size(); ++i)
-            visitAssignment(ass.get(i));
-        break;
     default: break;
     }
+    // assignments nested in the operands: h = x = 1.5, i = 1, x = 1.5
+    for (uint32_t i = 0; i < ass.get_size(); ++i)
+        visitAssignment(ass.get(i));
 }
 
 void FeatureChecker::visitLocation(location_t& location)
